@@ -10,6 +10,8 @@ package main
 // are per-line preconditions established here.
 
 import (
+	"net/url"
+	"strconv"
 	"bufio"
 	"encoding/json"
 	"fmt"
@@ -369,7 +371,39 @@ func init() {
 						ok, note = schemaOK[j], strings.Join(schemaErr[j], "; ")
 					}
 					ctype := q.Method == "GET" || mediaOK(q.ContentType)
-					emit(ri, q, apiEvent{"ev": "lockreq", "kind": q.Kind, "schemaOk": ok, "acceptOk": mediaOK(q.Accept), "ctypeOk": ctype}, note)
+					// paging of lock lists (docs/api/locking.md): a cursor is a next_cursor the server handed
+					// out for the same kind of listing; a limit, when sent, is a positive number of locks
+					cursor, limitOk, next := "", true, ""
+					switch q.Kind {
+					case "locks-list":
+						if vals, err := url.ParseQuery(q.Query); err == nil {
+							cursor = vals.Get("cursor")
+							if l, has := vals["limit"]; has {
+								n, err := strconv.Atoi(l[0])
+								limitOk = err == nil && n > 0
+							}
+						}
+					case "locks-verify":
+						var vb map[string]json.RawMessage
+						if json.Unmarshal(q.Body, &vb) == nil {
+							if cr, has := vb["cursor"]; has {
+								json.Unmarshal(cr, &cursor)
+							}
+							if lr, has := vb["limit"]; has {
+								var n float64
+								limitOk = json.Unmarshal(lr, &n) == nil && n > 0 && n == float64(int64(n))
+							}
+						}
+					}
+					if q.Kind == "locks-list" || q.Kind == "locks-verify" {
+						var rb struct {
+							Next string `json:"next_cursor"`
+						}
+						json.Unmarshal(q.Response, &rb)
+						next = rb.Next
+					}
+					emit(ri, q, apiEvent{"ev": "lockreq", "kind": q.Kind, "schemaOk": ok, "acceptOk": mediaOK(q.Accept), "ctypeOk": ctype,
+						"cursor": cursor, "limitOk": limitOk, "next": next}, note)
 				}
 			}
 		}
